@@ -35,3 +35,29 @@ def replay(work, hbin, docs, cases, label, mesh=True):
     if p.returncode != 0:
         raise vlib.Infra("semreplay failed: " + p.stderr.decode()[-2000:])
     return summary_of(p.stderr), list(vlib.read_ndjson(mm))
+
+
+def random_tier(work, rep, hbin, rich, n):
+    """Mechanism B: seeded random deep schemas + near-conforming documents, every Validate call judged by TLC (TraceSem)."""
+    tr = work.path("rand-%s.ndjson" % ("rich" if rich else "plain"))
+    p = vlib.run_harness(hbin, ["semrand", "-n", str(n), "-rich=%s" % ("true" if rich else "false"), "-out", tr], timeout=6000)
+    if p.returncode != 0:
+        raise vlib.Infra("semrand failed: " + p.stderr.decode()[-2000:])
+    s = summary_of(p.stderr)
+    lines = list(vlib.read_ndjson(tr))
+    r = vlib.tlc(work, "TraceSem", "TraceSem.cfg", consts={"TraceFile": '"%s"' % tr}, timeout=12000, heap="24g")
+    rep.add_tlc(r, "TraceSem over %d random Validate calls (%s)" % (len(lines), "types/or/additionalProperties" if rich else "shape + scalar rules"))
+    if r.distinct != len(lines) + 1:
+        raise vlib.Infra("trace not consumed: %d states for %d events" % (r.distinct, len(lines)))
+    rep.notes.setdefault("random", []).append(s)
+    rep.cov["traces_validated_against_impl"] += len(lines)
+    rep.cov["evaluations"] += len(lines)
+    rep.cov["distinct_nontrivial"] += len(lines)
+    bad = []
+    for l in r.tagged("@@MISMATCH"):
+        m = json.loads(l)
+        e = lines[m["line"] - 1]
+        bad.append({"schema": e["text"], "doc": e["doctext"], "want": m["what"], "got": {"ok": e["ok"], "code": e["code"]}, "abstract": e["schema"], "env": e["env"], "opt": e["opt"], "what": "random"})
+    if lines:
+        rep.sample({"random_schema": lines[len(lines) // 2]["text"], "doc": lines[len(lines) // 2]["doctext"], "ok": lines[len(lines) // 2]["ok"]})
+    return bad
